@@ -262,6 +262,139 @@ func (g *pgen) selfRef(shallow, selfPos int, tail int) Prog {
 	return p
 }
 
+// observeAlt: one observation of the map that sits on top of the alt stack (the map stays there).
+func (g *pgen) observeAlt(kind int, keys []Ins) Prog {
+	pick := func() Ins {
+		if len(keys) > 0 && g.n(5) != 0 {
+			return keys[g.n(len(keys))]
+		}
+		return PushBytes([]byte{byte(g.n(256))})
+	}
+	switch kind % 9 {
+	case 0:
+		return Prog{I("dupfromalt"), I("keys"), I("notify")}
+	case 1:
+		return Prog{I("dupfromalt"), I("values"), I("notify")}
+	case 2:
+		return Prog{I("dupfromalt"), I("serialize"), I("notify")}
+	case 3:
+		return Prog{I("dupfromalt"), I("serialize"), PushBytes([]byte{byte('a' + g.n(3))}), I("put")}
+	case 4:
+		return Prog{I("dupfromalt"), pick(), I("haskey"), I("notify")}
+	case 5:
+		return Prog{I("dupfromalt"), pick(), I("pickitem"), I("notify")}
+	case 6:
+		return Prog{I("dupfromalt"), I("keys"), I("arraysize"), I("notify")}
+	case 7:
+		return Prog{I("dupfromalt"), I("values"), I("serialize"), PushBytes([]byte("v")), I("put")}
+	}
+	return Prog{I("dupfromalt"), I("keys"), I("serialize"), I("notify")}
+}
+
+// distinctKeys: n keys with pairwise distinct images whose byte order is unrelated to their
+// position in the result (so that keys added later interleave with the earlier ones).
+func (g *pgen) distinctKeys(n int) []Ins {
+	seen := map[string]bool{}
+	var out []Ins
+	for len(out) < n {
+		var b []byte
+		switch g.n(4) {
+		case 0:
+			b = []byte{byte(0x10 * (1 + g.n(14))), byte(g.n(3))}
+		default:
+			b = []byte{byte(1 + g.n(250))}
+		}
+		if !seen[string(b)] {
+			seen[string(b)] = true
+			out = append(out, PushBytes(b))
+		}
+	}
+	return out
+}
+
+// growThenObserve: the three-step shape on ONE map object: `early` keys, an observation, `late`
+// more keys (no removal in between), observations again.
+func (g *pgen) growThenObserve(early, late int) Prog {
+	keys := g.distinctKeys(early + late)
+	p := Prog{I("newmap"), I("toalt")}
+	for _, k := range keys[:early] {
+		p = p.add(g.prim()).add(setFromAlt(k)...)
+	}
+	p = p.add(g.observeAlt(g.n(4), keys[:early])...)
+	for _, k := range keys[early:] {
+		p = p.add(g.prim()).add(setFromAlt(k)...)
+	}
+	first := g.n(3)
+	p = p.add(g.observeAlt(first, keys)...)
+	for i, n := 0, g.n(3); i < n; i++ {
+		p = p.add(g.observeAlt(g.n(9), keys)...)
+	}
+	p = p.add(I("fromalt"))
+	switch g.n(4) {
+	case 0:
+		p = p.add(I("keys"))
+	case 1:
+		p = p.add(I("values"))
+	case 2:
+		p = p.add(I("serialize"))
+	}
+	return p
+}
+
+// lifecycle: one map object that grows, shrinks and is overwritten, observed between the phases.
+func (g *pgen) lifecycle() Prog {
+	pool := g.distinctKeys(4 + g.n(9))
+	var live []Ins
+	p := Prog{I("newmap"), I("toalt")}
+	for ph, phases := 0, 2+g.n(5); ph < phases; ph++ {
+		for i, n := 0, 1+g.n(4); i < n; i++ {
+			switch {
+			case len(live) > 0 && g.n(5) == 0: // remove a live key (or a missing one)
+				j := g.n(len(live))
+				p = p.add(I("dupfromalt"), live[j], I("remove"))
+				live = append(live[:j:j], live[j+1:]...)
+			case len(live) > 0 && g.n(6) == 0: // overwrite
+				p = p.add(g.prim()).add(setFromAlt(live[g.n(len(live))])...)
+			default:
+				k := pool[g.n(len(pool))]
+				p = p.add(g.prim()).add(setFromAlt(k)...)
+				dup := false
+				for _, l := range live {
+					if l.B == k.B {
+						dup = true
+					}
+				}
+				if !dup {
+					live = append(live, k)
+				}
+			}
+		}
+		for i, n := 0, 1+g.n(2); i < n; i++ {
+			p = p.add(g.observeAlt(g.n(9), live)...)
+		}
+	}
+	// the same object reached through a second reference: [m, m] and a nested holder
+	switch g.n(4) {
+	case 0:
+		p = p.add(I("dupfromalt"), I("dupfromalt"), PushInt(0), I("newarray"), I("toalt")).add(appendFromAlt()...).add(appendFromAlt()...).add(I("fromalt"), I("serialize"), I("notify"))
+	case 1:
+		p = p.add(I("dupfromalt")).add(wrapInArray()...).add(I("serialize"), PushBytes([]byte("w")), I("put"))
+	}
+	p = p.add(I("fromalt"))
+	if g.n(2) == 0 {
+		p = p.add(I("keys"))
+	}
+	return p
+}
+
+// earlyKeys: mostly 2..5 keys before the first observation, sometimes 0 or 1.
+func earlyKeys(g *pgen) int {
+	if g.n(5) == 0 {
+		return g.n(2)
+	}
+	return 2 + g.n(4)
+}
+
 var soupOps = []string{"newmap", "newarray", "dup", "swap", "drop", "over", "pick", "toalt", "fromalt", "dupfromalt",
 	"setitem", "append", "pickitem", "remove", "haskey", "keys", "values", "arraysize", "notify", "put"}
 
@@ -603,6 +736,14 @@ func Run(c *hx.Ctx) {
 		}
 		p = p.add(g.ops(keys)...)
 		d.add(Input{Kind: "run", Name: "generic-map", Prog: p}, k < 24)
+	}
+	// 3d'. one map object observed while it changes: early keys, observation, late keys (interleaving
+	// in byte order with the early ones), observations again; and longer lifecycles with removals
+	for k := 0; k < c.N(90, 900); k++ {
+		d.add(Input{Kind: "run", Name: "grow-then-observe", Prog: g.growThenObserve(earlyKeys(g), 2+g.n(5))}, k < 12)
+	}
+	for k := 0; k < c.N(70, 700); k++ {
+		d.add(Input{Kind: "run", Name: "map-lifecycle", Prog: g.lifecycle()}, k < 8)
 	}
 	// 3e. large maps: KEYS / VALUES at the array size limit (1024 / 1025 entries would need long
 	// programs; the limit itself is exercised through NEWARRAY + APPEND on arrays)
